@@ -43,6 +43,9 @@ pub struct Acc {
     pub transitions: u64,
     pub states: HashSet<u64>,
     pub nontrivial: HashSet<u64>,
+    /// non-trivial cases that are distinct BY CONSTRUCTION (dense enumerations of a block of inputs, each
+    /// produced exactly once) and therefore counted without storing a fingerprint per case
+    pub nontrivial_counted: u64,
     pub outcomes: HashSet<u64>,
     pub violations: BTreeMap<String, Violation>,
     pub samples: Vec<Value>,
@@ -138,6 +141,7 @@ impl Acc {
         self.transitions += o.transitions;
         self.states.extend(o.states);
         self.nontrivial.extend(o.nontrivial);
+        self.nontrivial_counted += o.nontrivial_counted;
         self.outcomes.extend(o.outcomes);
         for (k, v) in o.violations {
             match self.violations.get_mut(&k) {
@@ -346,7 +350,7 @@ impl Report {
         let wall = self.start.elapsed().as_secs_f64();
         let mut cov = Map::new();
         cov.insert("evaluations".into(), json!(acc.evaluations.max(acc.dfs.executions)));
-        cov.insert("distinct_nontrivial".into(), json!(acc.nontrivial.len()));
+        cov.insert("distinct_nontrivial".into(), json!(acc.nontrivial.len() as u64 + acc.nontrivial_counted));
         cov.insert("rule".into(), json!(self.rule));
         cov.insert("samples".into(), Value::Array(acc.samples.clone()));
         cov.insert("exhaustive".into(), json!(self.exhaustive && !acc.dfs.capped && acc.capped_cases == 0));
@@ -405,7 +409,7 @@ impl Report {
             acc.dfs.executions,
             acc.dfs.choice_points,
             acc.states.len(),
-            acc.nontrivial.len(),
+            acc.nontrivial.len() as u64 + acc.nontrivial_counted,
             acc.outcomes.len(),
             acc.violations.len(),
             new_violations,
@@ -422,7 +426,7 @@ impl Report {
             );
             return 2;
         }
-        if acc.nontrivial.len() < 2 {
+        if (acc.nontrivial.len() as u64 + acc.nontrivial_counted) < 2 {
             eprintln!("MACHINERY-FAILURE: vacuous exploration: fewer than 2 non-trivial cases");
             return 2;
         }
